@@ -6,7 +6,7 @@ CONFIG = {
         "files": ["ledger/store/trackerdb/testsuite/zz_verif_c47_test.go"],
         "util": [("ledger/store/trackerdb/testsuite", "testsuite")],
         "env": {"quick": {"VERIF_C47_HIST": 60, "VERIF_C47_BATCH": 5, "VERIF_C47_QUERY": 30},
-                "thorough": {"VERIF_C47_HIST": 1500, "VERIF_C47_BATCH": 6, "VERIF_C47_QUERY": 40}},
+                "thorough": {"VERIF_C47_HIST": 600, "VERIF_C47_BATCH": 6, "VERIF_C47_QUERY": 40}},
         "timeout": {"quick": 600, "thorough": 3000},
         "search_tier": "quick",
     }],
